@@ -232,6 +232,8 @@ fn check_rt(ctx: &Ctx, env: &Env, case: &RtCase) -> CaseResult {
     rep.class_if(r.used_short, "alias-short");
     rep.class_if(r.used_long, "alias-long");
     rep.class_if(has_leading_dash_value(&case.value), "value-with-leading-dash");
+    rep.class_if(case.value.opts.iter().flatten().any(|v| model::is_help(&v.0)), "option-value-is-a-help-flag");
+    rep.class_if(case.value.opts.iter().flatten().any(|v| spec.is_reserved(&v.0) && !model::is_help(&v.0)), "option-value-is-an-option-token");
     rep.class_if(has_non_ascii_value(&case.value), "value-non-ascii");
     rep.class_if(case.value.opts.iter().zip(spec.opts).any(|(v, o)| o.kind == Kind::Many && v.len() >= 2), "repeated-option-2+");
     rep.class_if(case.value.opts.iter().zip(spec.opts).any(|(v, o)| o.kind == Kind::Opt && v.is_empty()), "optional-option-absent");
